@@ -52,7 +52,8 @@ func C17Selection() {
 		want = append(want, "Conv(*verifsk/sel.SrcA) Other(*verifsk/sel.SrcA)")
 	}
 	if isMarker(vrt.SlotText("sel", "S4")) {
-		want = append(want, "Bee(*verifsk/sel.SrcB)")
+		// (incl. the method Beta has by embedding an interface declared in a sibling file)
+		want = append(want, "Bee(*verifsk/sel.SrcB) FromSibling(*verifsk/sel.SrcB)")
 	}
 	vrt.SlotText("sel", "S3") // Convergen is selected by its name whatever its doc says
 	want = append(want, "Main(*verifsk/sel.SrcC)")
